@@ -77,7 +77,9 @@ def run(ctx):
                     lines.append("finfo %s %d %d %d %d %d" % (enc(b"/d/f"), t | m, tm, rnd.randint(0, 1 << 40), u, rnd.choice(ids)))
     st = Stream("finfo_roundtrip", lines, desc="toFInfo/fInfo accessors and a JSON round trip on a grid of type bits x permission bits x times x ids; oracle: every accessor (Mode, ModTime instant, Size, IsDir, uid, gid, Name) survives",
                 oracle=lambda i, l, o: None if o.startswith("same") else "fInfo round trip loses information: " + o)
-    res.append(run_t1_stream_impl_only("C12", st))
+    r = run_t1_stream_impl_only("C12", st)
+    r["model_compared"] = False
+    res.append(r)
     return {"streams": res}
 
 
